@@ -18,6 +18,8 @@ def clean():
 
 if sh(['git', '-C', '/repo', 'status', '--porcelain', '--untracked-files=no']).stdout.strip():
     sys.exit('/repo has uncommitted changes; refusing')
+# the check rewrites evidence/ on every run; keep the files of the unchanged tree and put them back at the end
+EV = {f: open(f).read() for f in glob.glob(os.path.join(ROOT, 'evidence', 'C10*.json')) if 'thorough' not in f}
 bad = 0
 for d in sorted(glob.glob(os.path.join(ROOT, 'seeded', 'S*')), key=lambda p: int(os.path.basename(p).split('-')[0][1:])):
     name = os.path.basename(d)
@@ -45,4 +47,6 @@ for d in sorted(glob.glob(os.path.join(ROOT, 'seeded', 'S*')), key=lambda p: int
     results[name] = {'check_exit': c.returncode, 'ok': ok, 'seconds': round(time.time() - t0, 1), 'replay_reproduces_and_vanishes_after_revert': replay_ok, 'lines': [l[:260] for l in lines[:4]]}
     print('%-52s check exit=%d replay=%s %s  %.0fs' % (name, c.returncode, replay_ok, 'ok' if ok else '<<<<<< MISSED', time.time() - t0), flush=True)
     json.dump(results, open(res_path, 'w'), indent=1, ensure_ascii=False)
+for f, t in EV.items():
+    open(f, 'w').write(t)
 sys.exit(1 if bad else 0)
